@@ -963,6 +963,11 @@ class Session:
         name = self.ev_name(e)
         sm = rt.sm
         declared = name in type(sm)._events
+        foreign = getattr(self, "foreign_from", None)
+        if foreign is not None and name in type(foreign)._events:
+            # the caller hands over the *bound event object of another machine* (e.g. the `event` it received in a
+            # callback): `send` takes the name from it and triggers this machine's own event of that name
+            return sm.send(getattr(foreign, name), _tid=EqTag(tid))
         if style == "method" and declared:
             return getattr(sm, name)(_tid=EqTag(tid))
         if style == "events" and declared:
